@@ -1,4 +1,4 @@
-import os, time, vf
+import glob, os, time, vf
 PID = "C12"
 HP = vf.VERIF + "/checks/C12/parser_harness.cpp"
 HL = vf.VERIF + "/checks/C12/pipeline_harness.cpp"
@@ -30,9 +30,9 @@ def main(tier, args):
     dl = 55 if quick else 1000
     jobs = []
     # 16 processes in total: all start together, so the one (relative) deadline bounds the wall time.
-    # (2) pipeline half, engine H, fork per evaluation.  <=requests per configuration: quick 3/3/2, thorough 4/3/3
+    # (2) pipeline half, engine H, fork per evaluation.  <=requests per configuration: quick 3/3/3, thorough 4/3/4
     depth = 6 if quick else 8
-    mr = {"unix-epoll": 3 if quick else 4, "unix-select": 3, "tcp-epoll": 2 if quick else 3}
+    mr = {"unix-epoll": 3 if quick else 4, "unix-select": 3, "tcp-epoll": 3 if quick else 4}
     for tr, eng in (("unix", "epoll"), ("unix", "select"), ("tcp", "epoll")):
         jobs.append(("pipe:%s-%s" % (tr, eng), [pipe, tr, eng, str(depth), str(mr[tr + "-" + eng])]))
     # (1) parser half, engine I
@@ -46,8 +46,11 @@ def main(tier, args):
     if args.only:
         jobs = [j for j in jobs if j[0] == args.only or j[0].split(":")[0] == args.only]
     os.makedirs(vf.BUILD + "/C12/sock", exist_ok=True)
-    env = {"VERIF_DEADLINE_S": str(dl), "VERIF_WORKERS": "4" if quick else "5", "C12_SOCK_DIR": vf.BUILD + "/C12/sock"}
+    env = {"VERIF_DEADLINE_S": str(dl), "VERIF_WORKERS": "6", "C12_SOCK_DIR": vf.BUILD + "/C12/sock"}
     vf.run_procs(res, jobs, env=env, log=log, jobs=16)
+    for f in glob.glob(vf.BUILD + "/C12/sock/c12-*.sock"):      # left behind by children that died (crash = reported violation)
+        try: os.unlink(f)
+        except OSError: pass
     rule = (
         "(I) real RequestParser fed like Server::Impl::onTcpReceived (consume the returned count, re-present the rest together with the next segment). "
         "(a) request grammar {GET,POST,DELETE} x 3 targets (one with a query, one with a fragment) x HTTP/1.0|1.1 x 5 header sets (0-2 headers, Content-Length always present, first or last) "
